@@ -174,6 +174,20 @@ class FnView(object):
           bad.add(x.target.id)
         elif isinstance(x, (ast.Global, ast.Nonlocal)):
           bad.update(x.names)
+        elif isinstance(x, ast.Call) and isinstance(x.func, ast.Attribute) and \
+            isinstance(x.func.value, ast.Name) and x.func.attr in (
+                'append', 'extend', 'add', 'update', 'insert', 'pop', 'remove', 'discard',
+                'clear', 'setdefault', 'sort', 'reverse', 'appendleft', 'popleft'):
+          bad.add(x.func.value.id)      # grown in place: not its definition any more
+      for x in walk_local(self.fi.node):
+        tg = []
+        if isinstance(x, ast.Assign):
+          tg = x.targets
+        elif isinstance(x, (ast.AugAssign, ast.Delete)):
+          tg = [x.target] if isinstance(x, ast.AugAssign) else x.targets
+        for t in tg:
+          if isinstance(t, (ast.Subscript, ast.Attribute)) and isinstance(t.value, ast.Name):
+            bad.add(t.value.id)
       self._single = {k: v for k, v in val.items() if count[k] == 1 and k not in bad}
     return self._single
 
